@@ -73,7 +73,8 @@ def check_case(ctx: Ctx, c: Dict[str, Any], k: int = 0) -> None:
     affine = bool(c["affine"])
     f1 = poly_field(n, h, fld)
     flow = torch.cat([f1, 2 * f1])  # batch of two
-    forms = [("vector", h), ("per_item", [h, h])]
+    # per batch item spacing: the second item declares twice the spacing (its first derivatives halve, see `item1` below)
+    forms = [("vector", h), ("per_item", [h, [2 * v for v in h]])]
     if len(set(h)) == 1:
         forms.append(("scalar", h[0]))
     form_name, sp = forms[k % len(forms)]
@@ -115,7 +116,8 @@ def check_case(ctx: Ctx, c: Dict[str, Any], k: int = 0) -> None:
                     bad("flow_derivatives", f"{key} of an affine field with mode={mode} is off by {err:.3g} on the scheme's exact set"
                         f" ({'border of the other axes only' if ierr < 1e-5 else 'also in the interior'})",
                         mode=mode, what="first", where="border" if ierr < 1e-5 else "interior")
-                err2 = max_err(got[(1, 0) + tuple(slice(1, -2) for _ in range(D))], 2 * exp[tuple(slice(1, -2) for _ in range(D))])
+                item1 = 1.0 if form_name == "per_item" else 2.0  # second item = 2 * field; with doubled spacing its derivative is 2/2
+                err2 = max_err(got[(1, 0) + tuple(slice(1, -2) for _ in range(D))], item1 * exp[tuple(slice(1, -2) for _ in range(D))])
                 if err2 > 1e-5:
                     bad("flow_derivatives", f"{key} of the second batch item is off by {err2:.3g}", mode=mode, what="batch")
             elif mode not in ("forward", "backward"):
@@ -158,6 +160,20 @@ def check_case(ctx: Ctx, c: Dict[str, Any], k: int = 0) -> None:
                     bad("flow_derivatives", f"{key} requested in a subset differs from the full request (mode={mode})", mode=mode, what="subset")
         except Exception as ex:
             bad("flow_derivatives", f"subset request raised {type(ex).__name__}: {ex}", exc=type(ex).__name__, mode=mode, what="subset")
+    # B-spline mode with a different stride per axis: a derivative does not depend on which other derivatives are requested with it
+    strides = (2, 3) if D == 2 else (2, 3, 2)
+    keys = [f"du/d{AX[j]}" for j in range(D)] + [f"dv/d{AX[0]}{AX[1]}", f"du/d{AX[D - 1]}{AX[D - 1]}"]
+    try:
+        together = U.flow_derivatives(flow, which=keys, mode="bspline", stride=strides, spacing=sp)
+        for key in keys:
+            alone = U.flow_derivatives(flow, which=[key], mode="bspline", stride=strides, spacing=sp)[key]
+            if together[key].shape != alone.shape or max_err(together[key], alone) > 1e-6:
+                bad("flow_derivatives", f"{key} (mode=bspline, stride={strides}) requested together with {keys} has shape {tuple(together[key].shape)}, "
+                    f"requested alone {tuple(alone.shape)}" + ("" if together[key].shape != alone.shape else f" and differs by {max_err(together[key], alone):.3g}"),
+                    mode="bspline", what="subset_stride")
+                break
+    except Exception as ex:
+        bad("flow_derivatives", f"mode=bspline with stride={strides} raised {type(ex).__name__}: {str(ex)[:100]}", exc=type(ex).__name__, mode="bspline", what="subset_stride")
     # assembled quantities (default scheme) at the interior probes
     try:
         jd = U.jacobian_dict(flow, spacing=sp)
